@@ -10,16 +10,17 @@ def utf8_methods():
     m = re.search(r"enum Method\s*\{(.*?)\};", src, re.S)
     names = [x.split("=")[0].strip() for x in m.group(1).replace("\n", " ").split(",") if x.strip()]
     return {n: i for i, n in enumerate(names)}
+NX = ["modules/csv/csvparser.cpp", "modules/utf8/plugin_utf8.cpp", "modules/utf8/utf8helper.cpp", "modules/utf8/utf8helper_charmap.cpp"]
 def instances():
     out = []
     for k, row in enumerate(ROWS_Q + ROWS_T):
-        out.append(Inst(id="c18.csv.%d" % k, props=["C18", "C01"], harness="h_c18.cpp", entry="c18_csv", tus=["modules/csv/csvparser.cpp"], defs=['VX_ROW="%s"' % row],
+        out.append(Inst(id="c18.csv.%d" % k, props=["C18", "C01"], harness="h_c18.cpp", entry="c18_csv", tus=["modules/csv/csvparser.cpp"], native_extra=NX, defs=['VX_ROW="%s"' % row],
                         unwind=12, timeout=3000, tier="thorough",
                         bounds="row class pattern %s (S separator, Q quote, N/R line breaks, O other byte; | separates fields)" % row, inputs="separator and quote characters, every O byte"))
-    out.append(Inst(id="c18.csv.serialize", props=["C18", "C01"], harness="h_c18.cpp", entry="c18_csv_ser", tus=["modules/csv/csvparser.cpp"],
+    out.append(Inst(id="c18.csv.serialize", props=["C18", "C01"], harness="h_c18.cpp", entry="c18_csv_ser", tus=["modules/csv/csvparser.cpp"], native_extra=NX,
                     unwind=8, timeout=600, bounds="one field of <= 2 bytes", inputs="separator, quote, field bytes and length"))
     M = utf8_methods()
-    out.append(Inst(id="c18.utf8", props=["C18", "C01"], harness="h_c18.cpp", entry="c18_utf8", tus=CORE_TUS + ["blocc/plugin.cpp", "modules/utf8/plugin_utf8.cpp", "modules/utf8/utf8helper.cpp", "modules/utf8/utf8helper_charmap.cpp"],
+    out.append(Inst(id="c18.utf8", props=["C18", "C01"], harness="h_c18.cpp", entry="c18_utf8", native_extra=NX, tus=CORE_TUS + ["blocc/plugin.cpp", "modules/utf8/plugin_utf8.cpp", "modules/utf8/utf8helper.cpp", "modules/utf8/utf8helper_charmap.cpp"],
                     defs=["VX_M_AT=%d" % M["At"], "VX_M_REMOVE=%d" % M["Remove"], "VX_M_SUBSTR2=%d" % M["Substr2"]], stubs=FMT_STUBS + CTX_STUBS + [x for x in CONTAINER_STUBS if "Complex" not in x],
                     unwind=6, unwindset=EMPTY_DECL_UNWIND, timeout=900, truncate_long=True, bounds="string of 2 ASCII characters", inputs="position and count (int64, converted as the module does)"))
     return out
